@@ -251,9 +251,21 @@ def process_violation(prop, raw):
             if rc4 == 1:
                 final = minp
     rf = json.load(open(final))
+    # shuttle's simulated threads share the OS thread's thread_local!s, real threads do not. A
+    # violation whose (minimised) scenario needs two or more simulated threads is therefore
+    # confirmed before it counts: all operations on one thread, one operation nested into another
+    # (re-entrant caller), or real OS threads under the baton scheduler.
+    confirmed, how = True, ""
+    sc = rf.get("scenario") or {}
+    if prop == "C18" and alone and len(sc.get("threads", [])) >= 2:
+        rc5, out5 = run([BIN, "confirm", final], timeout=900)
+        how = (out5.strip().splitlines() or [""])[-1]
+        confirmed = rc5 == 1
+        note.append(("confirmed: " if confirmed else "NOT confirmed: ") + how)
     if note:
         rf.setdefault("notes", []).extend(note)
         json.dump(rf, open(final, "w"), indent=1)
+    rf["_confirmed"] = confirmed
     return final, alone, rf
 
 
@@ -261,13 +273,23 @@ def report(prop, raws, limit=3):
     """Prints VIOLATION / KNOWN-FINDING lines. Returns number of unlisted violations."""
     known = load_known()
     unlisted = 0
+    unconfirmed = 0
     seen = set()
-    for raw in raws[:limit]:
+    processed = 0
+    for raw in raws:
+        if unlisted >= limit or processed >= 4 * limit:
+            break
+        processed += 1
         final, alone, rf = process_violation(prop, raw)
         sig = (rf.get("class"), json.dumps(rf.get("scenario") or rf.get("aisle"), sort_keys=True))
         if sig in seen:
             continue
         seen.add(sig)
+        if not rf.get("_confirmed", True):
+            unconfirmed += 1
+            log(f"NOTE: a {rf.get('class')} seen under simulated threads was not confirmed on one thread, re-entrantly or on real OS threads "
+                f"({(rf.get('notes') or [''])[-1]}); simulated threads share thread-locals, so this is not reported as a violation. File: {final}")
+            continue
         k = next((e for e in known if matches_known(e, rf)), None)
         v0 = (rf.get("violations") or [{}])[0]
         if k is not None:
@@ -279,8 +301,8 @@ def report(prop, raws, limit=3):
             for n in rf.get("notes", []):
                 log(f"  note: {n}")
             log(f"VIOLATION property={prop} replay={final}")
-    if len(raws) > limit:
-        log(f"  ({len(raws) - limit} further raw violation(s) not processed)")
+    if len(raws) > processed:
+        log(f"  ({len(raws) - processed} further raw violation(s) not processed)")
     return unlisted
 
 
